@@ -6,7 +6,7 @@ BUILD_ARGS = {"scale": SCALE}
 META = {
     "level": "other",
     "explanation": "Two layers. Method layer (non-interference): two runs of the real crypt_<m>_rn on identical (phrase, setting) with independent arbitrary residue in output and scratch, over uninterpreted kernels: same result, same errno - an uninitialised read of scratch/output shows up as a difference. API layer: the real crypt.c/crypt-static.c with contract stubs from an arbitrary prior object: crypt, crypt_r, crypt_rn each return exactly what the (pure) method produced, hand the method the caller's strings, the 384-byte output and an aligned scratch inside internal for object placements at byte offsets 0, 1, 8, 15; the object's prior contents and the static areas do not influence the result.",
-    "functions": ["crypt", "crypt_r", "crypt_rn", "do_crypt", "get_internal", "crypt_{descrypt,bigcrypt,bsdicrypt,nt}_rn", "crypt_md5crypt_rn (concrete lengths)", "crypt_{sunmd5,sha1crypt}_rn (thorough, concrete lengths)"],
+    "functions": ["crypt", "crypt_r", "crypt_rn", "do_crypt", "get_internal", "crypt_{descrypt,bigcrypt,bsdicrypt,nt}_rn", "crypt_md5crypt_rn (concrete lengths)", "crypt_sha1crypt_rn (thorough, concrete lengths)"],
     "bounds": {"phrase": "<= 4..6 bytes", "setting": "<= 8 bytes (API), per-method tail (methods)", "placements": "offsets 0,1,8,15"},
     "outside": ["sha256crypt/sha512crypt/yescrypt family/bcrypt method-level purity", "interleavings with crypt_gensalt/setkey/encrypt: their static areas are separate objects (C08 shows crypt does not touch or read them)"],
     "assumptions": ["contract stubs are pure functions of (phrase, setting)", "scaled data object", "smaller scratch objects at method level"],
@@ -25,8 +25,8 @@ def queries(tier, seed, build):
         qs.append(q)
     # stretching methods: concrete lengths per query, contents symbolic
     grid = [("md5crypt", 2, 9)] if tier == "quick" else \
-        [(n, pl, sl) for n in ("md5crypt", "sunmd5", "sunmd5-comma", "sha1crypt") for pl, sl in ((0, 1), (2, 4), (2, 9), (3, 12))
-         if not (n == "sha1crypt" and sl < 3)]      # a sha1crypt tail needs at least "N$s"
+        [(n, pl, sl) for n in ("md5crypt", "sha1crypt") for pl, sl in ((0, 1), (2, 4), (2, 9), (3, 12))
+         if not (n == "sha1crypt" and (sl < 3 or sl > 9))]      # a sha1crypt tail needs at least "N$s"
     for n, pl, sl in grid:
         q = rel_query(BY_NAME[n], "c07-pure-%s-p%d-s%d" % (n, pl, sl), "REL_PURE", max_p=max(pl, 1), max_s=max(sl, 1),
                       extra_defs=["FIX_PLEN=%d" % pl, "FIX_SLEN=%d" % sl], timeout=1500 if tier == "quick" else 3000)
